@@ -1,1 +1,4 @@
 WITHDRAWN = {}
+
+add("C01", "exploration", "runtime monitor: supply-conservation oracle over full state dumps (producer + fresh validator child processes) on seeded adversarial tx mixes; per-tx probe inside the real block generator",
+    "Held on every block of every explored configuration: the sum of all balances over a complete walk of the state trie is unchanged by the block (minus receipt fees when no coinbase is configured), observed on the real producer path and on a fresh validator that re-executes the block. Exploration, not proof: reach is the seeded tx mixes x configurations x hardfork versions listed in the evidence.")
